@@ -3,6 +3,8 @@ package vc
 import (
 	"fmt"
 	"go/types"
+	"os"
+	"path/filepath"
 	"sort"
 	"strings"
 
@@ -375,4 +377,48 @@ func safeEval(f func() *smt.Term) (t *smt.Term, err error) {
 		}
 	}()
 	return f(), nil
+}
+
+// AttachReplays generates, for every failed obligation that came with a model, Go tests that re-run the real
+// function on the model's inputs (written next to the SMT files; the check driver injects them with -overlay).
+func (e *Engine) AttachReplays(results []*OblResult, dir string) {
+	os.MkdirAll(dir, 0o755)
+	n := 0
+	for _, r := range results {
+		o := r.FailedObl
+		if r.Status != "failed" || o == nil || o.Replay == nil || o.Contract == nil || r.Model == "" {
+			continue
+		}
+		vals := ParseGetValue(r.Model)
+		keys := sortedKeys(o.ModelTerms)
+		if len(vals) != len(keys) {
+			r.ReplayNote = fmt.Sprintf("model has %d values for %d requested terms", len(vals), len(keys))
+			continue
+		}
+		values := map[string]*sexpr{}
+		for i, k := range keys {
+			values[k] = vals[i]
+		}
+		fn := o.Contract.Fn
+		if fn == nil || !fn.Pos().IsValid() {
+			continue
+		}
+		file := e.Fset.Position(fn.Pos()).Filename
+		rel, err := filepath.Rel(e.RepoDir, filepath.Dir(file))
+		if err != nil {
+			continue
+		}
+		full, ok, note := e.GenReplayTest(o.Contract, o.Replay, o.Kind, r.Name, o.Clause, values)
+		if !ok {
+			r.ReplayNote = note
+			continue
+		}
+		lite, _, _ := e.GenReplayTest(o.Contract, o.Replay, "safety", r.Name, nil, values)
+		n++
+		fp := filepath.Join(dir, fmt.Sprintf("replay_%d_test.go", n))
+		lp := filepath.Join(dir, fmt.Sprintf("replay_%d_lite_test.go", n))
+		os.WriteFile(fp, []byte(full), 0o644)
+		os.WriteFile(lp, []byte(lite), 0o644)
+		r.ReplayTest, r.ReplayTestLite, r.ReplayPkg, r.ReplayNote = fp, lp, rel, note
+	}
 }
